@@ -81,6 +81,40 @@ def solve(program, monom_text, force_cyclic=False, rb=None):
     return s.get(monom), s.is_exact, recs
 
 
+_CLI_DEFAULTS = None
+
+
+def cli_defaults():
+    global _CLI_DEFAULTS
+    if _CLI_DEFAULTS is None:
+        from cli.argument_parser import ArgumentParser
+
+        _CLI_DEFAULTS = ArgumentParser().get_defaults()
+    import copy
+
+    return copy.copy(_CLI_DEFAULTS)
+
+
+def solve_cli(program, monom_text, rb, solvers, force_cyclic=False):
+    """The route the command line takes for a moment goal: cli.common.get_moment.
+    force_cyclic: the solver class used by that route is wrapped to pass force_cyclic_solver=True."""
+    import cli.common as cc
+    from symengine.lib.symengine_wrapper import sympify
+    import sympy
+
+    saved = cc.RecurrenceSolver
+    if force_cyclic:
+        def forced(recurrences, *a, **k):
+            return saved(recurrences, force_cyclic_solver=True)
+
+        cc.RecurrenceSolver = forced
+    try:
+        moment, exact = cc.get_moment(sympify(monom_text), solvers, rb, cli_defaults(), program)
+    finally:
+        cc.RecurrenceSolver = saved
+    return sympy.sympify(moment), exact
+
+
 def n_symbol():
     from sympy import Symbol
 
@@ -200,6 +234,25 @@ def compare_value(expr_at_n, expected, seed=0, digits=40):
         return "neq", "numeric", str(sympy.N(val, 30))
     except Exception:
         return "unknown", "numeric", str(e)
+
+
+def compare_value_rounded(expr_at_n, expected, seed=0, tol=1e-5):
+    """A result flagged rounded: numeric comparison within a relative tolerance."""
+    import sympy
+
+    e = sympy.sympify(expr_at_n)
+    syms = sorted(e.free_symbols | {sympy.Symbol(v) for v in expected.variables()}, key=str)
+    pool = [Fraction(3, 7), Fraction(5, 11), Fraction(2, 13), Fraction(7, 17), Fraction(11, 19), Fraction(13, 23)]
+    env = {str(s): pool[(i + seed) % len(pool)] for i, s in enumerate(syms)}
+    try:
+        exp_val = expected.eval(env)
+        sub = {s: sympy.Rational(env[str(s)].numerator, env[str(s)].denominator) for s in syms}
+        val = complex(sympy.N(e.xreplace(sub), 30))
+    except Exception:
+        return "unknown", "rounded", str(e)[:200]
+    if abs(val - float(exp_val)) <= tol * max(1.0, abs(float(exp_val))):
+        return "eq", "rounded", str(val)
+    return "neq", "rounded", str(val)
 
 
 def canon_names(text):
